@@ -195,10 +195,19 @@ def gen_c19(rnd, sid, method):
             L.append("S tm_reg %d 1 %d %d" % (t, rnd.choice([0, 1, 3, 7, 12]), rnd.choice([0, 500000000])))
             L.append("R tm %d 0 1 popen_close %d" % (t, i))
     # the child may end by itself at some point
+    nstr = rnd.choice([0, 0, 1, 2])
+    for k in range(nstr):
+        L.append("S stranger %d" % (300 + k))
     for q in range(1, 12):
         c = rnd.random()
         if c < 0.25:
+            if nstr and rnd.random() < 0.5:
+                # a child the library knows nothing about ends in the same batch (and is collected first)
+                L.append("E %d child %d 0 0" % (q, 300 + rnd.randrange(nstr)))
             L.append("E %d child %d %d %d" % (q, 100 + rnd.randint(1, n), rnd.choice([0, 1]), rnd.choice([0, 9])))
+            if rnd.random() < 0.4:
+                # ... and the signalling timer comes due before the loop gets to the status
+                L.append("E %d advance %d 0" % (q, rnd.choice([5, 5, 10, 1])))
         elif c < 0.4:
             # the child is stopped / continued: a status that is not a termination
             L.append("E %d child %d %d %d" % (q, 100 + rnd.randint(1, n), rnd.choice([2, 3]), 19))
@@ -217,7 +226,17 @@ def _handoff(unreg):
 
 
 SMALL = {
-    "C10": {"excl-handoff-1": _handoff(1), "excl-handoff-2": _handoff(2)},
+    "C10": {"excl-handoff-1": _handoff(1), "excl-handoff-2": _handoff(2),
+            # a delivery arrives while the exclusive interest's handler runs; a task then drops that interest
+            # before it is called again: the delivery goes to the other interest
+            "excl-rerun-unreg": ("sigsim=1 maxcb=300", ["O sig 1", "O sig 2", "O tk 1", "O tm 1", "S sig_reg 1 10 1", "S sig_reg 2 10 0",
+                                                        "E 1 raise 10 0", "R sig 1 0 1 raise 10 0", "R sig 1 0 1 tk_reg 1",
+                                                        "R tk 1 0 1 sig_unreg 1", "S tm_reg 1 1 5 0", "R tm 1 0 1 sig_unreg 2"]),
+            # signals aimed at a thread that is inside registration calls most of the time
+            "raise-during-reg": ("sigsim=1 maxcb=300", ["O sig 1", "O sig 2", "O sig 3", "O tm 1", "S spawn 1", "T 1 iv_init", "T 1 sig_reg 1 10 0",
+                                                        "T 1 set_flag 2", "T 1 sig_reg 2 12 0", "T 1 sig_unreg 2", "T 1 sig_reg 2 12 0", "T 1 sig_unreg 2",
+                                                        "T 1 sig_reg 3 12 0", "T 1 tm_reg 1 1 1 0", "R tm 1 0 1 sig_unreg 1", "R tm 1 0 1 sig_unreg 3",
+                                                        "T 1 iv_main", "T 1 iv_deinit", "S wait_flag 2", "S raise 10 1", "S raise 10 1", "S raise 10 1"])},
     "C11": {
         # thread 1's child dies; thread 1 signals it through the helper while the main thread, which receives
         # SIGCHLD, reaps it: the helper must look at the interest under the lock
@@ -226,6 +245,11 @@ SMALL = {
                           "R tk 5 0 1 childof 4 0 0 1", "R tk 5 0 1 wait_kill 4 15", "R wait 4 0 1 wait_unreg 4",
                           "T 1 iv_main", "T 1 iv_deinit", "S wait_spawn 1", "R wait 1 0 1 wait_unreg 1",
                           "E 1 childof 1 0 0"]),
+        # SIGCHLD is taken by a thread that never used the library (it has no loop): the interests of the
+        # other threads are still served
+        "sigchld-foreign-thread": ("sigsim=1 maxcb=300 pids=101,102,103 chldthr=1",
+                                   ["O wait 1", "O tk 1", "S spawn 1"] + ["T 1 yield"] * 8 +
+                                   ["S wait_spawn 1", "S tk_reg 1", "R tk 1 0 1 childof 1 0 7", "R wait 1 0 1 wait_unreg 1"]),
         # a child of the main thread stops and continues while its owner is busy; the handler drops the interest
         # at the first status (nothing may be delivered after that)
         "stop-cont-unreg": ("sigsim=1 maxcb=300 pids=101,102,103 chldthr=1",
